@@ -37,7 +37,7 @@ theorem makeMergeChunks_nil (n : Nat) :
 theorem mergeChunk_unchanged (E : Env) (rec : Rec) (inStr : Bool) (base : List J) (path : List PKey)
     (ls is_ : Option String) (b : B) (j k : Nat) :
     mergeChunk E rec inStr base path ls is_ b ⟨j, k, [], []⟩ = .ok b := by
-  simp [mergeChunk, chunkTypename, pure, Except.pure]
+  simp [mergeChunk, chunkSwitch, chunkTypename, pure, Except.pure]
 
 theorem foldChunks_nil (E : Env) (rec : Rec) (inStr : Bool) (base : List J) (path : List PKey)
     (ls is_ : Option String) (n : Nat) :
@@ -289,7 +289,7 @@ theorem foldlM_inv {α β : Type} (Inv : β → Prop) (f : β → α → Except 
 theorem mergeChunk_remote_nil {P : String → Bool → Prop} (hP : P "local" false) {E : Env} {rec : Rec} {inStr : Bool}
     {base : List J} {path : List PKey} {ls is_ : Option String} {b b' : B} {c : Chunk} (hc : c.d1 = [])
     (hb : AllAC P b) (h : mergeChunk E rec inStr base path ls is_ b c = .ok b') : AllAC P b' := by
-  unfold mergeChunk at h
+  unfold mergeChunk chunkSwitch at h
   simp only [hc, chunkTypename, List.isEmpty_nil, Bool.not_true, Bool.and_false, Bool.not_false, if_true] at h
   split at h
   · simp only [pure, Except.pure, Except.ok.injEq] at h; subst h; exact hb
@@ -298,7 +298,7 @@ theorem mergeChunk_remote_nil {P : String → Bool → Prop} (hP : P "local" fal
 theorem mergeChunk_local_nil {P : String → Bool → Prop} (hP : P "remote" false) {E : Env} {rec : Rec} {inStr : Bool}
     {base : List J} {path : List PKey} {ls is_ : Option String} {b b' : B} {c : Chunk} (hc : c.d0 = [])
     (hb : AllAC P b) (h : mergeChunk E rec inStr base path ls is_ b c = .ok b') : AllAC P b' := by
-  unfold mergeChunk at h
+  unfold mergeChunk chunkSwitch at h
   simp only [hc, chunkTypename, List.isEmpty_nil, Bool.not_true, Bool.false_and, Bool.not_false, if_true] at h
   split at h
   · simp only [pure, Except.pure, Except.ok.injEq] at h; subst h; exact hb
@@ -307,7 +307,7 @@ theorem mergeChunk_local_nil {P : String → Bool → Prop} (hP : P "remote" fal
 theorem mergeChunk_same {P : String → Bool → Prop} (hP : P "either" false) {E : Env} {rec : Rec} {inStr : Bool}
     {base : List J} {path : List PKey} {ls is_ : Option String} {b b' : B} {c : Chunk} (hc : c.d0 = c.d1)
     (hb : AllAC P b) (h : mergeChunk E rec inStr base path ls is_ b c = .ok b') : AllAC P b' := by
-  unfold mergeChunk at h
+  unfold mergeChunk chunkSwitch at h
   simp only [hc, opPyEqList_refl, if_true] at h
   split at h
   · simp only [pure, Except.pure, Except.ok.injEq] at h; subst h; exact hb
